@@ -1,5 +1,5 @@
 """Texts for MANIFEST.json (kept apart from the run configuration)."""
-HOOK_COMMITS = ["ded7f21", "6737bff", "56d5772"]
+HOOK_COMMITS = ["ded7f21", "6737bff", "56d5772", "59f9f13"]
 NOTES = ("All checks are property-based tests / fuzzers (rapid v1.3.0 + native go fuzzing). Genuine defects found on the pinned tree are "
          "either repaired by 'fix:' commits in /repo or listed in /verif/known_findings.txt; see DESIGN.md.")
 NOT_APPLICABLE = {}
@@ -106,5 +106,12 @@ CLAIMED = {
         text=("Generated archives are unpacked into the default, an explicit mem.FS, an OpenFile+Chmod+Mkdir-only wrapper or os.FS destination whose calls are released one at a time in a generated order; after Done() the tar FS and the destination must equal the model exactly "
               "(files: bytes and permission bits; explicit directories: bits; ancestors: kind; nothing else). Separate legs: 85-120 files (more than the small-buffer pool holds) and archives containing one escaping entry. Sampled exploration of inputs and schedules."),
         note="schedules are owned at destination-call granularity only (what happens inside a destination call is free-running); directories with a later descendant entry are compared by kind only on in-memory destinations while known finding C12:dir-mode-lost-mkdirall-vs-mkdir reproduces (full check remains on os.FS)",
+    ),
+    "C13": dict(
+        technique="property-based testing with rapid + enumeration of every cut point / destination-call fault per archive; the harness owns the archive reader, the destination calls and (verif hook) three race points inside tar; free-running stress and burst legs; model-based checks of pubsub and bufferPool",
+        text=("Archives are streamed block by block through a reader the harness parks and faults (truncate, error, cancel) while Open calls are launched against entries not yet reached, half-written (destination write held), written, directories and missing names; "
+              "every cut block and every destination call index is enumerated per archive; tar's reader/announcer goroutines are parked at verifPoint markers while everything is opened; the same cases also run free (60 repetitions). A successful Open must deliver the complete bytes, "
+              "and Done / every Open must return once the stream ended, failed or was cancelled. pubsub and bufferPool are driven directly against models (plus a barrier burst hunting a lost wake-up)."),
+        note="liveness is observed as 'returned within the watchdog'; interleavings inside a destination call or between points the harness does not own are only sampled by the stress legs",
     ),
 }
